@@ -235,7 +235,19 @@ fn bytes_and_model(doc: &Doc) -> (Vec<u8>, Vec<(String, BTreeMap<Pos, Exp>)>) {
         Doc::Xlsb(d) => (bb::encode(d), d.sheets.iter().enumerate().map(|(i, s)| (s.name.clone(), bb::expected_values(d, i))).collect()),
         Doc::Xls(c) => {
             let d = crate::props::c02::build(c, 0);
-            (b8::encode(&d), d.sheets.iter().enumerate().map(|(i, s)| (s.name.clone(), b8::expected_values(&d, i))).collect())
+            let model = d.sheets.iter().enumerate().map(|(i, s)| (s.name.clone(), b8::expected_values(&d, i))).collect();
+            // every other xls workbook carries a VBA project (so that vba_project() has something to
+            // return, twice)
+            let bytes = if c.junk % 2 == 0 {
+                use crate::enc::cfb::{write_cfb, CfbStream};
+                let (streams, _) = crate::enc::ovba::project_streams(&crate::props::c06::vba_desc(c.junk as u64 + 1), &["_VBA_PROJECT_CUR".to_string()]);
+                let mut all = vec![CfbStream::root("Workbook", b8::workbook_stream(&d))];
+                all.extend(streams);
+                write_cfb(&all, &d.cfb).0
+            } else {
+                b8::encode(&d)
+            };
+            (bytes, model)
         }
         Doc::Ods(d) => (od::encode(d), d.sheets.iter().map(|s| (s.name.clone(), od::expected_values(s))).collect()),
     }
@@ -495,19 +507,136 @@ fn case_strategy() -> impl Strategy<Value = Case> {
             let k = k.min(d.sheets.len());
             d.sheets.insert(k, xx::XSheet { name: "Chart 1".into(), kind: 1, ..Default::default() });
         }
+        // workbook order is not name order: half of the workbooks get their first and last sheet
+        // names exchanged (readers that keep sheets in a name-keyed map must still answer in
+        // workbook order)
+        if history.len() % 2 == 0 {
+            match &mut doc {
+                Doc::Xlsx(d) if d.sheets.len() >= 2 => {
+                    let n = d.sheets.len() - 1;
+                    let (a, b) = (d.sheets[0].name.clone(), d.sheets[n].name.clone());
+                    d.sheets[0].name = b;
+                    d.sheets[n].name = a;
+                }
+                Doc::Xlsb(d) if d.sheets.len() >= 2 => {
+                    let n = d.sheets.len() - 1;
+                    let (a, b) = (d.sheets[0].name.clone(), d.sheets[n].name.clone());
+                    d.sheets[0].name = b;
+                    d.sheets[n].name = a;
+                }
+                Doc::Xls(c) if c.sheets.len() >= 2 => {
+                    let n = c.sheets.len() - 1;
+                    let (a, b) = (c.sheets[0].name.clone(), c.sheets[n].name.clone());
+                    c.sheets[0].name = b;
+                    c.sheets[n].name = a;
+                }
+                Doc::Ods(d) if d.sheets.len() >= 2 => {
+                    let n = d.sheets.len() - 1;
+                    let (a, b) = (d.sheets[0].name.clone(), d.sheets[n].name.clone());
+                    d.sheets[0].name = b;
+                    d.sheets[n].name = a;
+                }
+                _ => {}
+            }
+        }
         Case { doc, history }
     })
+}
+
+/// `open_workbook_auto(path)`: the reader is chosen by the file extension (every alias of the
+/// format's extensions) or, for an unknown or missing extension, by probing the content
+#[derive(Debug, Clone, Serialize, Deserialize)]
+pub struct PathCase {
+    pub doc: Doc,
+    pub ext: u8,
+}
+
+fn path_strategy() -> impl Strategy<Value = PathCase> {
+    (case_strategy(), 0u8..8).prop_map(|(c, ext)| PathCase { doc: c.doc, ext })
+}
+
+fn oracle_path(case: &PathCase) -> Report {
+    let mut rep = Report::new();
+    let (bytes, _) = bytes_and_model(&case.doc);
+    let (fmt, exts): (&str, &[&str]) = match case.doc {
+        Doc::Xlsx(_) => ("xlsx", &["xlsx", "xlsm", "xlam"]),
+        Doc::Xlsb(_) => ("xlsb", &["xlsb"]),
+        Doc::Xls(_) => ("xls", &["xls", "xla"]),
+        Doc::Ods(_) => ("ods", &["ods"]),
+    };
+    // the format's own extensions first, then names that force content probing
+    let probing = ["dat", "", "bin", "XLSX2"];
+    let k = case.ext as usize;
+    let ext = if k < exts.len() { exts[k] } else { probing[(k - exts.len()) % probing.len()] };
+    rep.label(format!("{fmt}:.{ext}"));
+    let dir = std::path::PathBuf::from(format!("{}/harness/target/scratch/autopath-{}-{:?}", crate::engine::VERIF_ROOT, std::process::id(), std::thread::current().id()));
+    if std::fs::create_dir_all(&dir).is_err() {
+        rep.fail("HARNESS-SELF-CHECK: cannot create the scratch directory".to_string());
+        return rep;
+    }
+    let path = if ext.is_empty() { dir.join("book") } else { dir.join(format!("book.{ext}")) };
+    if std::fs::write(&path, &bytes).is_err() {
+        rep.fail("HARNESS-SELF-CHECK: cannot write the scratch file".to_string());
+        return rep;
+    }
+    let direct = match open(&case.doc, bytes) {
+        Ok(w) => w,
+        Err(e) => {
+            let _ = std::fs::remove_file(&path);
+            let _ = std::fs::remove_dir(&dir);
+            rep.fail(e);
+            return rep;
+        }
+    };
+    let auto = guard(|| calamine::open_workbook_auto(&path));
+    let _ = std::fs::remove_file(&path);
+    let _ = std::fs::remove_dir(&dir);
+    match auto {
+        Ok(Ok(mut wb)) => {
+            let detected = match &wb {
+                Sheets::Xlsx(_) => "xlsx",
+                Sheets::Xlsb(_) => "xlsb",
+                Sheets::Xls(_) => "xls",
+                Sheets::Ods(_) => "ods",
+            };
+            if detected != fmt {
+                rep.fail(format!("open_workbook_auto(book.{ext}) opened a {fmt} workbook with the {detected} reader"));
+                return rep;
+            }
+            let names = direct.names();
+            if wb.sheet_names() != names {
+                rep.fail(format!("open_workbook_auto(book.{ext}): sheet names {:?}, the {fmt} reader gives {names:?}", wb.sheet_names()));
+                return rep;
+            }
+            let mut direct = direct;
+            for n in names.iter().take(2) {
+                let a = guard(|| canon_res(wb.worksheet_range(n)));
+                let b = guard(|| direct.exec(&Op::Range(names.iter().position(|x| x == n).unwrap_or(0) as u8)));
+                if a != b {
+                    rep.fail(format!("open_workbook_auto(book.{ext}): worksheet_range({n:?}) differs from the {fmt} reader"));
+                    return rep;
+                }
+            }
+            rep.nontrivial = true;
+        }
+        Ok(Err(e)) => rep.fail(format!("open_workbook_auto(book.{ext}) fails on a workbook the {fmt} reader opens: {e:?}")),
+        Err(p) => rep.fail(format!("open_workbook_auto(book.{ext}): {p}")),
+    }
+    rep
 }
 
 fn run(ctx: &mut Ctx) {
     let n = ctx.n(3000, 60_000);
     ctx.run("history", n, case_strategy, oracle);
+    let n = ctx.n(150, 6000);
+    ctx.run("auto-path", n, path_strategy, oracle_path);
     ctx.assumptions.push("results are compared through their Debug rendering (ranges: bounds and every cell; errors: only the fact that the call failed)".into());
 }
 
 fn replay(sub: &str, case: &serde_json::Value) -> Option<Report> {
     match sub {
         "history" => replay_as::<Case>(case, oracle),
+        "auto-path" => replay_as::<PathCase>(case, oracle_path),
         _ => None,
     }
 }
